@@ -18,7 +18,7 @@ import (
 func init() {
 	register(&Prop{
 		ID: "C20", Level: "exploration",
-		Rule: "one case = a router with LoggerWithHandler(capturing handler) over all handler kinds, a drawn router-wide client-IP resolver (none, succeeding, failing) and routes with a drawn per-route resolver (inherit, other succeeding, failing, nil), plus a twin router without the logger; 8-20 requests per run, each with a scripted handler behaviour from {explicit status at the class boundaries 200/299/300/399/400/499/500/599, 201 with a Location header, informational only, implicit 200 by a body write, no write at all, redirect with Location, 3xx without Location, write on a failing connection, panic with a drawn value} and a drawn handler kind (route, no-route, no-method, built-in redirect, options). Oracle: exactly one record per returning handler, emitted after the handler returned; status attribute = the status the recorder reports (first final status forwarded, 200 if none); method, host, path of the request; message = resolved client IP / remote address when no resolver is configured / 'unknown' when resolution fails, using the route's resolver in route handlers and the router-wide one elsewhere; level INFO/DEBUG/WARN/ERROR per status class, location attribute exactly for 3xx with a Location header; the bytes and headers on the simulated connection equal those of the twin router; a panic passes through as the identical value and emits no record. latency is ignored. Non-trivial: the run covered at least 3 status classes and 2 handler kinds; distinct = hash of (configuration, request scripts).",
+		Rule: "one case = a router with LoggerWithHandler(capturing handler) over all handler kinds, a drawn router-wide client-IP resolver (none, succeeding, failing) and routes with a drawn per-route resolver (inherit, other succeeding, failing, nil), plus a twin router without the logger; 8-20 requests per run, each with a scripted handler behaviour from {explicit status at the class boundaries 200/299/300/399/400/499/500/599 and every code 301-308 and 310, each with or without a Location header set, 201 with a Location header, informational only, implicit 200 by a body write, no write at all, redirect with Location, 3xx without Location, write on a failing connection, panic with a drawn value} and a drawn handler kind (route, no-route, no-method, built-in redirect, options). Oracle: exactly one record per returning handler, emitted after the handler returned; status attribute = the status the recorder reports (first final status forwarded, 200 if none); method, host, path of the request; message = resolved client IP / remote address when no resolver is configured / 'unknown' when resolution fails, using the route's resolver in route handlers and the router-wide one elsewhere; level INFO/DEBUG/WARN/ERROR per status class, location attribute exactly for 3xx with a Location header; the bytes and headers on the simulated connection equal those of the twin router; a panic passes through as the identical value and emits no record. latency is ignored. Non-trivial: the run covered at least 3 status classes and 2 handler kinds; distinct = hash of (configuration, request scripts).",
 		Run:  runC20, Quick: 64000, Thorough: 9600000,
 		Real: []string{"Logger middleware (logger.go)", "Context.ClientIP / RemoteIP", "recorder ResponseWriter", "ServeHTTP dispatch", "option processing (WithClientIPResolver)"},
 		Stub: []string{"slog sink: capturing handler", "client-IP resolvers: scripted", "net/http connection: simulated connection", "wall clock: real but unobserved (latency attribute excluded)"},
@@ -126,7 +126,7 @@ func runC20(src sim.Source, o Opts) *Result {
 		return "192.0.2.1"
 	}
 	behaviours := []string{"status", "status", "status", "2xx-with-location", "info-only", "implicit", "nothing", "redirect-loc", "3xx-noloc", "failing-conn", "panic"}
-	statuses := []int{200, 299, 300, 399, 400, 499, 500, 599}
+	statuses := []int{200, 299, 300, 399, 400, 499, 500, 599, 301, 302, 303, 304, 305, 306, 307, 308, 310}
 	classes := map[slog.Level]bool{}
 	kinds := map[model.Kind]bool{}
 	var scripts []string
@@ -137,6 +137,7 @@ func runC20(src sim.Source, o Opts) *Result {
 		kind := sim.Pick(src, "kind", []model.Kind{model.KRoute, model.KRoute, model.KNoRoute, model.KNoMethod, model.KRedirect, model.KOptions})
 		beh := sim.Pick(src, "behaviour", behaviours)
 		status := sim.Pick(src, "status", statuses)
+		withLoc := src.Intn("withloc", 3) == 0 // behaviour "status": a Location header is set before the status is written
 		p := world.Probe{Method: "GET", Host: "sim.invalid", Path: fmt.Sprintf("/l%d/v%d", ri, q)}
 		switch kind {
 		case model.KNoRoute:
@@ -151,13 +152,16 @@ func runC20(src sim.Source, o Opts) *Result {
 		if kind == model.KRedirect {
 			beh = "builtin"
 		}
-		scripts = append(scripts, fmt.Sprintf("%s %s -> %s/%s/%d", p.Method, p.Path, kind, beh, status))
+		scripts = append(scripts, fmt.Sprintf("%s %s -> %s/%s/%d/loc=%v", p.Method, p.Path, kind, beh, status, withLoc))
 		pv := sim.Pick(src, "panicvalue", []any{"boom", errors.New("boom"), customPanic{1}})
 		run := func(ww *world.World, returned *bool) world.ServeObs {
 			log := &world.ReqLog{Inner: func(c fox.Context, h *world.Hit) {
 				wr := c.Writer()
 				switch beh {
 				case "status":
+					if withLoc {
+						c.SetHeader("Location", "http://sim.invalid/loc")
+					}
 					wr.WriteHeader(status)
 				case "2xx-with-location":
 					c.SetHeader("Location", "http://sim.invalid/created")
